@@ -211,9 +211,15 @@ func c13Corpus(tier string) []c13Case {
 		{world: "W0", c: a.Case{Q: "{ echo n2 { title } }"}, faults: map[int]string{0: "transport", 1: "errors1"}},
 		{world: "W0", c: a.Case{Q: "{ n1s { phone } }"}, faults: map[int]string{1: "errors-per-request"}, batchM: 2},
 		{world: "W0+third-service", c: a.Case{Q: "{ n1s { phone extra } }"}, faults: map[int]string{1: "errors-per-request", 2: "transport"}, batchM: 2},
+		// a named operation whose root step is answered without data and without errors (the message must not carry anything request-specific)
+		{world: "W0", c: a.Case{Q: "query Named { echo n2 { title } }"}, faults: map[int]string{0: "datanull"}},
+		{world: "W0", c: a.Case{Q: "query Named { echo n2 { title } }"}, faults: map[int]string{1: "nodata"}},
+		// a whole call failing below the root whose batch is fed by two root steps of different services (the order of its requests is open)
+		{world: "W0+third-service", c: a.Case{Q: "{ n1s { extra } n2 { owner { extra } } }"}, faults: map[int]string{2: "transport"}},
+		{world: "W0+third-service", c: a.Case{Q: "{ n1s { extra } n2 { owner { extra } } }"}, faults: map[int]string{2: "status500"}},
 	} {
-		if tier == "quick" && fc.world == "W0+third-service" {
-			continue // three concurrently answering services: thorough only
+		if tier == "quick" && fc.world == "W0+third-service" && (len(fc.faults) > 1 || fc.faults[2] == "status500") {
+			continue // three concurrently answering services, two of them failing: thorough only
 		}
 		out = append(out, fc)
 	}
@@ -256,7 +262,7 @@ func init() {
 		Assumptions: []string{"map iteration inside dependencies (gqlparser, lo) is not enumerated", "deviation-bounded: combinations of more than the bound of order changes / preemptions are not covered"},
 		Budget: func(tier string) time.Duration {
 			if tier == "quick" {
-				return 120 * time.Second
+				return 150 * time.Second
 			}
 			return 14 * time.Minute
 		},
@@ -283,7 +289,7 @@ func init() {
 				out = append(out, Scenario{
 					Name:  name,
 					Atoms: h.fed.CaseAtoms(cc.c),
-					Opt:   explore.Options{Bound: bound, MapBranch: true, Horizon: 200000, Cache: true},
+					Opt:   explore.Options{Bound: bound, MapBranch: true, Horizon: 200000, Cache: true, OutcomeIsProperty: true},
 					H:     c13Harness(h, cc.c),
 					Fresh: func() explore.Harness { return c13Harness(h.freshCopy(), cc.c) },
 					Post:  c13Post,
